@@ -777,6 +777,9 @@ func runHistories(c *ctx, prof histProfile, n int) {
 
 func init() {
 	props["C01"] = func(c *ctx) {
+		for _, rt := range []string{"rds", "eds"} {
+			evictDuringUpdate(c, rt)
+		}
 		runHistories(c, histProfile{steps: 40, pFault: 3, pEvict: 6, pBad: 10, pUnsolicited: 25, pGet: 40, sendFail: false}, 60*c.budget)
 	}
 	props["C02"] = func(c *ctx) {
